@@ -16,7 +16,7 @@ EVIDENCE = os.path.join(VERIF, "evidence")
 REPLAYS = os.path.join(VERIF, "replays")
 KNOWN_FINDINGS = os.path.join(VERIF, "known_findings.json")
 GUARD = "s2e_systems_dust_dds_verif"
-N_TARGET_DIRS = 4
+N_TARGET_DIRS = 8
 
 EXIT_OK = 0
 EXIT_VIOLATION = 1
